@@ -1043,7 +1043,7 @@ MAIN_PROCESS_MODULES = ('cli', 'progress', 'strategy_ddmin',
                         'tmpfiles', 'debug_utils', '__main__')
 # divisors that cannot be zero for a reason outside the function
 NONZERO_BY_CONTEXT = {
-    ('cli', 'ddsmt_main', 'os.path.getsize(options.args().infile)'):
+    ('cli', 'os.path.getsize(options.args().infile)'):
         'evaluated only when the result differs from the parsed input, and '
         'an empty input file parses to the empty list, which cannot be '
         'reduced',
@@ -1109,7 +1109,7 @@ def rule_r8(chk, prog):
                 if not ok:
                     from ..astutil import expand_locals
                     src = unparse(expand_locals(f, div))
-                    why = NONZERO_BY_CONTEXT.get((modname, q, src))
+                    why = NONZERO_BY_CONTEXT.get((modname, src))
                     ok = why is not None
                 chk.check('C04.R8', f'{modname}.{q}', x, ok,
                           f'"{unparse(x)}" divides by "{unparse(div)}", '
